@@ -614,7 +614,16 @@ impl Scenario for Hist {
                 let base = gen_insert(rng, &sw, &self.sut, &def, Some(base_fault));
                 match rng.below(4) {
                     0 => {
-                        let ci = rng.usize(def.cols.len());
+                        let mut ci = rng.usize(def.cols.len());
+                        if sw.guard("c12_no_key_update_on_self_ref") {
+                            // known finding C12-selfref-key-update reaches the same code through ON DUPLICATE KEY
+                            // UPDATE: keep the referenced key of a self-referencing table out of its SET list too
+                            let keycols: Vec<String> = def.fks.iter().filter(|f| f.parent == def.name).map(|f| f.parent_col.clone()).collect();
+                            if keycols.contains(&def.cols[ci].name) {
+                                ci = def.cols.iter().position(|c| !keycols.contains(&c.name)).unwrap_or(ci);
+                                cx_veto = true;
+                            }
+                        }
                         let e = gen_set_expr(rng, &sw, &self.sut, &def, ci);
                         let mut base = base;
                         let stored = table_rows(&self.sut, &def.name).unwrap_or_default();
